@@ -31,6 +31,13 @@ def budget(tier):
 
 
 def gen_case(rng, tier, idx):
+    if idx % 64 == 31:
+        # a call auction whose first round matches more than a hundred pairs over dozens of price levels
+        from ..runnerdrive import gen_big_auction_case
+
+        c = gen_big_auction_case(rng)
+        c["profile"] = "matching"
+        return c
     if idx % 8 == 7:
         from ..runnerdrive import gen_runner_case
 
